@@ -1222,7 +1222,7 @@ class Tr:
             if isinstance(s, (ast.For, ast.While)):
                 return False
             for sub in ast.walk(s):
-                if isinstance(sub, (ast.Yield, ast.YieldFrom, ast.For, ast.While)):
+                if isinstance(sub, (ast.Yield, ast.YieldFrom, ast.For, ast.While, ast.Return)):
                     return True
         return False
 
